@@ -44,6 +44,7 @@ pub struct Server {
     closes_on_unbind: bool,
     paging_pos: BTreeMap<Vec<u8>, usize>,
     paging_rng: Rng,
+    last_emit_ms: u64,
 }
 
 pub fn request_token(op: &ReqOp) -> Option<String> {
@@ -85,6 +86,7 @@ impl Server {
             closes_on_unbind,
             paging_pos: BTreeMap::new(),
             paging_rng: Rng::new(cookie_seed),
+            last_emit_ms: 0,
         }
     }
 
@@ -274,7 +276,10 @@ impl Server {
         // hostile splice
         if let Some(h) = &self.plan.hostile {
             if h.before_emission == self.emitted {
-                let bytes = h.bytes.clone();
+                let bytes = match h.nest {
+                    Some((depth, id, in_controls)) => nested_frame(depth, id, in_controls),
+                    None => h.bytes.clone(),
+                };
                 world::with(|w| {
                     let s = w.pipe.s2c.len();
                     w.pipe.s2c.extend_from_slice(&bytes);
@@ -285,6 +290,7 @@ impl Server {
             }
         }
         self.emitted += 1;
+        self.last_emit_ms = world::now_ms();
         let e = self.emissions[ix].clone();
         let bytes = match e.raw {
             Some(b) => b,
@@ -312,6 +318,44 @@ impl Server {
             }
         });
     }
+}
+
+/// An LDAPMessage envelope for `id` whose protocolOp (application 1, or the controls element)
+/// contains SEQUENCEs nested `depth` deep.
+pub fn nested_frame(depth: u32, id: i64, in_controls: bool) -> Vec<u8> {
+    // sizes from the inside out, headers from the outside in (linear)
+    let depth = depth.max(1) as usize;
+    let mut sizes = vec![0usize; depth]; // sizes[k] = encoded size of the element at nesting level k
+    sizes[depth - 1] = 2;
+    for k in (0..depth - 1).rev() {
+        let content = sizes[k + 1];
+        let mut hdr = Vec::new();
+        ber::write_len(&mut hdr, content, 0);
+        sizes[k] = 1 + hdr.len() + content;
+    }
+    let mut inner: Vec<u8> = Vec::with_capacity(sizes[0]);
+    for k in 0..depth - 1 {
+        inner.push(0x30);
+        ber::write_len(&mut inner, sizes[k + 1], 0);
+    }
+    inner.extend_from_slice(&[0x30, 0x00]);
+    let idb = ber::encode(&ber::Tlv::int(id));
+    let mut body = idb;
+    if in_controls {
+        // a plain success result, then controls [0] holding the nest
+        body.extend(ber::encode(&msg::result_tlv(1, &ResultSpec::simple(0, "nested"))));
+        body.push(0xA0);
+        ber::write_len(&mut body, inner.len(), 0);
+        body.extend_from_slice(&inner);
+    } else {
+        body.push(0x61);
+        ber::write_len(&mut body, inner.len(), 0);
+        body.extend_from_slice(&inner);
+    }
+    let mut out = vec![0x30];
+    ber::write_len(&mut out, body.len(), 0);
+    out.extend_from_slice(&body);
+    out
 }
 
 pub fn hex(b: &[u8]) -> String {
@@ -434,6 +478,17 @@ impl Future for Server {
                 }
             }
             world::with(|w| w.pipe.c2s_waker = Some(cx.waker().clone()));
+            // idle close
+            if next.is_none() && !this.stopped && this.emitted > 0 {
+                if let Some(idle) = this.plan.close_after_idle_ms {
+                    let due = this.last_emit_ms + idle;
+                    if now >= due {
+                        this.stop("idle");
+                        return Poll::Pending;
+                    }
+                    next = Some(due);
+                }
+            }
             match next {
                 None => return Poll::Pending,
                 Some(at) => {
